@@ -26,5 +26,9 @@ def shape_updateObjectTreatAsArray : List String := ["if err != nil", "ret nil, 
 def shape_parseIndex : List String := ["if indexStr == \"last\"", "if lastIndex < 0", "ret &parseIndexResult{index: lastIndex}, nil", "if len(parts) == 2", "if part1 == \"last\"", "if err != nil || lastMinus < 0", "ret nil, &parseErr{msg: \"Invalid JSON path expression. Expected a positive integer after 'last-'\", character: *cursor}", "if reducedIdx < 0", "ret &parseIndexResult{index: reducedIdx, underflow: underFlow}, nil", "ret nil, &parseErr{msg: \"Invalid JSON path expression. Expected 'last-N'\", character: *cursor}", "if err != nil", "ret nil, &parseErr{msg: msg, character: *cursor}", "if val > lastIndex", "ret &parseIndexResult{index: val, overflow: overflow}, nil"]
 def sortKeysLess : List String := ["if len(keys[i]) != len(keys[j]) { return len(keys[i]) < len(keys[j]) }", "return keys[i] < keys[j]"]
 
+-- writeMarshalledValue, cases float64 / int64 / uint64 and convertJsonNumbers, case json.Number
+-- (transliterated by Gms/Model/JsonNum.lean: printNum, convert)
+def shape_printNumber : List String := ["float64: if val == float64(int64(val)); call strconv.FormatInt(int64(val), 10); call strconv.FormatFloat(val, 'f', -1, 64)", "int64: call strconv.FormatInt(val, 10)", "uint64: call strconv.FormatUint(val, 10)"]
+def shape_convertNumber : List String := ["set s := val.String()", "set f, _ := val.Float64()", "if strings.ContainsAny(s, \".eE\")", "ret f", "if math.Abs(f) < (1 << 53)", "ret f", "if i, err := val.Int64(); err == nil", "set i, err := val.Int64()", "ret i", "if u, err := strconv.ParseUint(s, 10, 64); err == nil", "set u, err := strconv.ParseUint(s, 10, 64)", "ret u", "ret f"]
 
 end Gms.C32.Expected
